@@ -1,7 +1,4 @@
-//@nopub
 //@grw format!\((?:[^()]|\([^()]*\))*\) ==> ""
-//@include ioerr.rs
-//@include dev.rs
 type IoResult<T> = std::result::Result<T, IoError>;
 
 #[verifier::external_body]
@@ -47,6 +44,11 @@ impl PagedReader {
         self.reader.data@[(i / (self.page_size - 4)) * self.page_size + i % (self.page_size - 4)]
     }
     spec fn no_new_fault(&self, o: &Self) -> bool { self.reader.failed@ == o.reader.failed@ }
+    /// same file, same geometry (frame for every function that only moves the cursor / fills the cache)
+    spec fn same_file(&self, o: &Self) -> bool {
+        self.reader.data@ == o.reader.data@ && self.page_size == o.page_size && self.pages == o.pages
+            && self.log_file_size == o.log_file_size
+    }
 
 //@fn src/paged_reader.rs PagedReader new serves=C11,C08,C09,C16,C17 ret=r
 //@rw -> Result< ==> -> IoResult<
@@ -74,7 +76,7 @@ impl PagedReader {
 //@sig
         requires old(self).wf(),
         ensures final(self).wf(), final(self).reader == old(self).reader, final(self).page_num == old(self).page_num,
-            final(self).page_buffer == old(self).page_buffer,
+            final(self).page_buffer == old(self).page_buffer, final(self).same_file(old(self)),
             match r {
                 // physical -> logical: skip 4 checksum bytes per page before the offset
                 Ok(l) => offset < old(self).phy_file_size && l == final(self).offset
@@ -108,7 +110,7 @@ impl PagedReader {
         requires old(self).wf(),
         // wf (cache clause included) holds on EVERY exit: after a failure the cache is never stale
         ensures final(self).wf(), final(self).offset == old(self).offset, final(self).reader.data@ == old(self).reader.data@,
-            final(self).page_size == old(self).page_size, final(self).pages == old(self).pages,
+            final(self).page_size == old(self).page_size, final(self).pages == old(self).pages, final(self).same_file(old(self)),
             match r { Ok(_) => page < old(self).pages && final(self).page_num == Some(page) && final(self).no_new_fault(old(self)),
                       // Err: device fault, page out of range, or the page on the device is not sealed
                       Err(_) => final(self).reader.failed@ || page >= old(self).pages
@@ -137,7 +139,7 @@ impl PagedReader {
 //@sig
         requires old(self).wf(),
         ensures final(self).wf(), final(self).reader == old(self).reader, final(self).page_num == old(self).page_num,
-            final(self).page_buffer == old(self).page_buffer,
+            final(self).page_buffer == old(self).page_buffer, final(self).same_file(old(self)),
             match r {
                 Ok(_) => final(self).offset % 4 == 0 && final(self).offset >= old(self).offset && final(self).offset - old(self).offset < 4,
                 Err(_) => final(self).offset == old(self).offset },
@@ -150,7 +152,7 @@ impl PagedReader {
 //@sig
         requires old(self).wf(),
         ensures final(self).wf(), final(self).reader.data@ == old(self).reader.data@,
-            final(self).page_size == old(self).page_size, final(self).pages == old(self).pages,
+            final(self).page_size == old(self).page_size, final(self).pages == old(self).pages, final(self).same_file(old(self)),
             final(buf)@.len() == old(buf)@.len(),
             match r {
                 Ok(n) => final(self).no_new_fault(old(self)) && ({
@@ -221,7 +223,7 @@ impl PagedReader {
     fn read_exact(&mut self, buf: &mut [u8]) -> (r: IoResult<()>)
         requires old(self).wf(),
         ensures final(self).wf(), final(self).reader.data@ == old(self).reader.data@,
-            final(self).page_size == old(self).page_size, final(self).pages == old(self).pages,
+            final(self).page_size == old(self).page_size, final(self).pages == old(self).pages, final(self).same_file(old(self)),
             final(buf)@.len() == old(buf)@.len(),
             match r {
                 Ok(_) => final(self).no_new_fault(old(self))
@@ -249,7 +251,7 @@ impl PagedReader {
                 forall|i: int| 0 <= i < done.len() ==> done[i] == me0.lbyte(off0 + i),
                 forall|i: int| 0 <= i < done.len() ==> #[trigger] me0.page_ok(off0 + i),
             invariant
-                self.wf(), self.reader.data@ == me0.reader.data@, self.page_size == me0.page_size, self.pages == me0.pages,
+                self.wf(), self.reader.data@ == me0.reader.data@, self.page_size == me0.page_size, self.pages == me0.pages, self.same_file(&me0),
                 self.log_file_size == me0.log_file_size, me0.wf(), off0 == me0.offset, me0 == *old(self),
                 total == old(buf)@.len(), whole.len() == total,
                 done.len() + unread@.len() == total,
